@@ -21,6 +21,11 @@ Spaces(n) == Rep(" ", n)
 RECURSIVE Cat(_)
 Cat(ss) == IF ss = <<>> THEN "" ELSE ss[1] \o Cat(Tail(ss))
 Max(a, b) == IF a >= b THEN a ELSE b
+\* display width: East-Asian wide characters (the ones the catalogues use) take two columns
+WideChars == {"口", "円", "米", "ド", "ル", "資", "産", "銀", "行", "座"}
+RECURSIVE StrWidth(_)
+StrWidth(str) == IF str = "" THEN 0
+                 ELSE (IF SubSeq(str, 1, 1) \in WideChars THEN 2 ELSE 1) + StrWidth(SubSeq(str, 2, Len(str)))
 
 \* ---------------------------------------------------------------- abstract syntax
 \* number: [txt, m (digits, no leading zero), neg, s (decimal places), f ("none"|"plain"|"comma")]; txt is canonical
@@ -180,7 +185,7 @@ AccountWidth(p) == p.account.w + Len(ClearText(p.clear))
 Gap(w, numEnd) == IF w + numEnd + 2 <= 48 THEN 48 - w - numEnd ELSE 2
 \* assertion only: "=" where it would fall after an amount in that commodity (number ending at 52,
 \* then " commodity", then " ="), never closer than two spaces to the account
-TrailOf(v) == Len(RValue(v, CanonStyle)) - NumEnd(v)
+TrailOf(v) == StrWidth(RValue(v, CanonStyle)) - NumEnd(v)      \* columns, not characters: ` 円` is three columns wide
 EqGap(w, trail) == IF w + 2 <= 49 + trail THEN 49 + trail - w ELSE 2
 
 CPostingLine(p) ==
